@@ -489,6 +489,24 @@ class Z3Alg(Alg):
       return a
     return a != 0
 
+  def rem(self, a, b):
+    """lax.rem on integers: C remainder (sign of the dividend)"""
+    a, b = _zr(a), _zr(b)
+    if not (z3.is_int(a) and z3.is_int(b)):
+      raise Unsupported('symbolic rem on reals')
+    self.side.append(('rem-nonzero', b != 0))
+    ab = z3.If(b >= 0, b, -b)
+    m = a % b                       # z3: 0 <= m < |b|
+    return z3.If(z3.And(a < 0, m != 0), m - ab, m)
+
+  def idiv(self, a, b):
+    """lax.div on integers: truncation toward zero"""
+    a, b = _zr(a), _zr(b)
+    self.side.append(('div-nonzero', b != 0))
+    q = a / b                       # z3 integer division (floor for b > 0, ceil for b < 0: Euclidean)
+    r = a - q * b
+    return z3.If(z3.And(a < 0, r != 0), z3.If(b > 0, q + 1, q - 1), q)
+
   def uf(self, name, *args):
     args = [_zr(a) for a in args]
     args = [z3.ToReal(a) if z3.is_int(a) else a for a in args]
